@@ -1,6 +1,7 @@
 import Cactus.Lemmas.Final
 import Cactus.Lemmas.Basic
 import Cactus.Lemmas.Shared.OneStep   -- `Shared.upgradeField_dead_none` (also used by `Props/C10.lean`)
+import Cactus.Lemmas.NoRevive         -- `Later`, `later_isLive_false` (destruction is final)
 /-!
 # C05 — Weak handles observe destruction exactly
 
@@ -148,6 +149,59 @@ theorem C05_upgrade_iff_value_not_destroyed {s : State} (h : Reachable s) (he : 
         | zero => simp [hs, Strong.isDead] at hd
         | succ n => exact (C05_upgrade_live_some s fh fw w o ob n hw hcell hs).1
 
+/-- **C05 (destruction is final for every Weak).** Once an object's value has been destroyed — in
+state `s`, by any teardown path — then in every later state `t` of the same execution (`Later`: any
+number of operation starts, machine steps, operation boundaries; mid-teardown states included), as
+long as the machine has reported no error, every Weak handle the program holds to that object
+
+* still names a readable allocation,
+* fails to `upgrade` (no handle is created, no counter changes), and
+* reports `strong_count` 0 and `weak_count` 0,
+
+and the same answer is given to a destructor that upgrades one of its own Weak fields. -/
+theorem C05_destroyed_is_final {s t : State} (hl : Later s t) (hr : Reachable t) (he : t.err = none)
+    (o : Nat) (ho : o < s.heap.length) (hd : s.isLive o = false) (fh fw : List Nat) :
+    (∀ w, nthMod t.wroots w = some o →
+        (t.cell o).isSome = true
+        ∧ applyAct t fh fw (.upgrade w) = t.emit (retBool false)
+        ∧ (applyAct t fh fw (.wcounts w)).log = t.log ++ [.ret 0, .ret 0])
+    ∧ (∀ k, nthMod fw k = some o → (t.cell o).isSome = true →
+        applyAct t fh fw (.upgradeField k) = t.emit (retBool false)) := by
+  have hdead := (later_isLive_false hl ho hd).2
+  have key : ∀ ob, t.cell o = some ob → ob.strong.isDead = true := by
+    intro ob hc
+    obtain ⟨hg, hf⟩ := cell_some_get t o ob hc
+    have : t.isLive o = (!ob.freed && !ob.strong.isDead) := by simp [State.isLive, hg]
+    rw [this] at hdead
+    cases hx : ob.strong.isDead with
+    | true => rfl
+    | false => simp [hx, hf] at hdead
+  constructor
+  · intro w hw
+    have hpos : 0 < t.extW o + t.inHeapW o + t.pendW o := by
+      have := State.extW_pos_of_mem_wroots (s := t) (mem_of_nthMod hw)
+      omega
+    have hc := C05_weak_keeps_allocation hr he hpos
+    obtain ⟨ob, hcell⟩ := Option.isSome_iff_exists.mp hc
+    exact ⟨hc, C05_upgrade_dead_none t fh fw w o ob hw hcell (key ob hcell),
+      C05_wcounts_dead t fh fw w o ob hw hcell (key ob hcell)⟩
+  · intro k hk hc
+    obtain ⟨ob, hcell⟩ := Option.isSome_iff_exists.mp hc
+    exact C05_upgradeField_dead_none t fh fw k o ob hk hcell (key ob hcell)
+
+/-- the history form: an object destroyed by the end of `ops1` answers `None`/0/0 through every
+Weak the program holds after `ops1 ++ ops2`, whatever `ops2` does -/
+theorem C05_destroyed_is_final_run (ops1 ops2 : List (Op × List Nat)) (o : Nat)
+    (ho : o < (run ops1).heap.length) (hd : (run ops1).isLive o = false)
+    (he : (run (ops1 ++ ops2)).err = none) (w : Nat)
+    (hw : nthMod (run (ops1 ++ ops2)).wroots w = some o) :
+    applyAct (run (ops1 ++ ops2)) [] [] (.upgrade w) = (run (ops1 ++ ops2)).emit (retBool false)
+    ∧ (applyAct (run (ops1 ++ ops2)) [] [] (.wcounts w)).log
+        = (run (ops1 ++ ops2)).log ++ [.ret 0, .ret 0] :=
+  let h := (C05_destroyed_is_final (later_run_append ops1 ops2) (run_reachable _) he o ho hd [] []).1 w hw
+  ⟨h.2.1, h.2.2⟩
+
+
 /-! ## Non-vacuity: both directions of `C05_upgrade_iff_value_not_destroyed` on one history
 
 A two-cycle `0 ↔ 1` built with `link`, a Weak to its member 0, a survivor (object 2) with a Weak;
@@ -211,5 +265,17 @@ example : (applyAct (run weakObserveHistory) [] [] (.upgrade 1)).roots
 example : (run (weakObserveHistory ++ [(.act (.upgrade 0), []), (.act (.upgrade 1), []),
       (.act (.wcounts 0), [])])).log.drop 5 = [.ret 0, .ret 1, .ret 0, .ret 0] := by
   decide +kernel
+
+def weakObserveLater : List (Op × List Nat) :=
+  [(.act .new, []), (.act (.clone 0), []), (.act (.drop 0), [])]
+
+/-- non-vacuity of `C05_destroyed_is_final_run`: object 0 is destroyed by `weakObserveHistory`; the
+program goes on (a new object, a clone, a drop) and still holds a Weak to 0, which the theorem
+then answers for -/
+example :
+    0 < (run weakObserveHistory).heap.length
+    ∧ (run weakObserveHistory).isLive 0 = false
+    ∧ (run (weakObserveHistory ++ weakObserveLater)).err = none
+    ∧ nthMod (run (weakObserveHistory ++ weakObserveLater)).wroots 0 = some 0 := by decide +kernel
 
 end Cactus
